@@ -194,7 +194,11 @@ func C15(c *Ctx) {
 		Compare: func(a, b *mon.Result, cs *mon.Case, g *gast.Grammar) []diff {
 			ds := stdCompare(false, false)(a, b, cs, g)
 			for i := range ds {
-				ds[i].want = fmt.Sprintf("class %s on %q: %v", gast.ExprString(g, g.Rule(cs.Entry).Expr), cs.Input, ds[i].want)
+				if ru := g.Rule(cs.Entry); ru != nil {
+					ds[i].want = fmt.Sprintf("class %s on %q: %v", gast.ExprString(g, ru.Expr), cs.Input, ds[i].want)
+				} else {
+					ds[i].want = fmt.Sprintf("parse made while the package was being initialised (first rule %s): %v", gast.ExprString(g, g.Rules[0].Expr), ds[i].want)
+				}
 			}
 			return ds
 		},
